@@ -1,1 +1,261 @@
+/-
+Lemmas on the pulse sweep (`OratioModel/Solver/Sweep.lean`), part 1:
+the order on `Time`, the pulse list, the set update `stepSet`, `pairsOf`.
+-/
 import OratioModel
+import Mathlib.Data.Prod.Lex
+import Mathlib.Tactic.Order
+import Mathlib.Algebra.Order.Ring.Unbundled.Rat
+
+namespace Oratio.Sweep
+
+/-! ### the order on `Time` is the lexicographic order of `ℚ × ℚ` -/
+
+/-- a time read in Mathlib's lexicographic order -/
+abbrev L (t : Time) : Lex (Rat × Rat) := toLex t
+
+theorem tlt_iff {a b : Time} : tlt a b = true ↔ L a < L b := by
+  simp [tlt, L, Prod.Lex.toLex_lt_toLex]
+
+theorem tlt_false_iff {a b : Time} : tlt a b = false ↔ L b ≤ L a := by
+  rw [← not_lt, ← tlt_iff]; simp
+
+theorem tle_iff {a b : Time} : tle a b = true ↔ L a ≤ L b := by
+  simp [tle, tlt_false_iff]
+
+theorem tle_false_iff {a b : Time} : tle a b = false ↔ L b < L a := by
+  simp [tle, tlt_iff]
+
+theorem teq_iff {a b : Time} : a = b ↔ L a = L b := by simp [L]
+
+theorem tbeq_iff {a b : Time} : (a == b) = true ↔ L a = L b := by simp [L]
+
+/-- turn every `tlt`/`tle`/`covers` fact into a fact of the linear order `Lex (ℚ × ℚ)` and call `order` -/
+macro "torder" : tactic =>
+  `(tactic| (simp only [covers, Bool.and_eq_true, Bool.not_eq_true, tlt_iff, tle_iff, tlt_false_iff,
+      tle_false_iff, tbeq_iff, teq_iff, ne_eq] at * <;> order))
+
+theorem covers_iff {a : TAtom} {t : Time} :
+    covers a t = true ↔ tle a.start t = true ∧ tlt t a.stop = true := by
+  simp [covers]
+
+theorem tlt_irrefl (a : Time) : tlt a a = false := by torder
+theorem tlt_trans {a b c : Time} (h1 : tlt a b = true) (h2 : tlt b c = true) : tlt a c = true := by torder
+theorem tlt_trichotomy (a b : Time) : tlt a b = true ∨ a = b ∨ tlt b a = true := by
+  rcases lt_trichotomy (L a) (L b) with h | h | h
+  · exact Or.inl (tlt_iff.2 h)
+  · exact Or.inr (Or.inl (teq_iff.2 h))
+  · exact Or.inr (Or.inr (tlt_iff.2 h))
+
+/-! ### `tadd` -/
+
+theorem tadd_right_comm (u a b : Time) : tadd (tadd u a) b = tadd (tadd u b) a := by
+  simp only [tadd, Prod.mk.injEq]
+  exact ⟨by rw [Rat.add_assoc, Rat.add_comm a.1, ← Rat.add_assoc],
+         by rw [Rat.add_assoc, Rat.add_comm a.2, ← Rat.add_assoc]⟩
+
+/-! ### the pulse list -/
+
+/-- strictly sorted -/
+abbrev Sorted (l : List Time) : Prop := l.Pairwise (fun a b => tlt a b = true)
+
+theorem mem_insertPulse {p x : Time} {l : List Time} : x ∈ insertPulse p l ↔ x = p ∨ x ∈ l := by
+  induction l with
+  | nil => simp [insertPulse]
+  | cons q r ih =>
+    unfold insertPulse
+    split
+    · simp
+    · split
+      · rename_i h
+        have : p = q := by simpa using h
+        subst this; simp
+      · simp only [List.mem_cons, ih]; tauto
+
+theorem sorted_insertPulse {p : Time} {l : List Time} (h : Sorted l) : Sorted (insertPulse p l) := by
+  induction l with
+  | nil => simp [insertPulse, Sorted]
+  | cons q r ih =>
+    have h' := List.pairwise_cons.1 h
+    unfold insertPulse
+    split
+    · rename_i hpq
+      refine List.Pairwise.cons ?_ h
+      intro x hx
+      rcases List.mem_cons.1 hx with rfl | hx
+      · exact hpq
+      · have := h'.1 x hx; torder
+    · split
+      · exact h
+      · rename_i h1 h2
+        refine List.Pairwise.cons ?_ (ih h'.2)
+        intro x hx
+        rcases mem_insertPulse.1 hx with rfl | hx
+        · torder
+        · exact h'.1 x hx
+
+theorem mem_foldl_insert (extra : List Time) : ∀ (ps : List Time) (x : Time),
+    x ∈ extra.foldl (fun ps p => insertPulse p ps) ps ↔ x ∈ ps ∨ x ∈ extra := by
+  induction extra with
+  | nil => simp
+  | cons e r ih => intro ps x; simp only [List.foldl_cons, ih, mem_insertPulse, List.mem_cons]; tauto
+
+theorem sorted_foldl_insert (extra : List Time) : ∀ (ps : List Time), Sorted ps →
+    Sorted (extra.foldl (fun ps p => insertPulse p ps) ps) := by
+  induction extra with
+  | nil => simp
+  | cons e r ih => intro ps h; exact ih _ (sorted_insertPulse h)
+
+theorem mem_foldl_atoms (as : List TAtom) : ∀ (ps : List Time) (x : Time),
+    x ∈ as.foldl (fun ps a => insertPulse a.stop (insertPulse a.start ps)) ps ↔
+      x ∈ ps ∨ ∃ a ∈ as, x = a.start ∨ x = a.stop := by
+  induction as with
+  | nil => simp
+  | cons a r ih =>
+    intro ps x
+    simp only [List.foldl_cons, ih, mem_insertPulse, List.mem_cons, exists_eq_or_imp]
+    constructor
+    · rintro ((h | h | h) | h)
+      · exact Or.inr (Or.inl (Or.inr h))
+      · exact Or.inr (Or.inl (Or.inl h))
+      · exact Or.inl h
+      · exact Or.inr (Or.inr h)
+    · rintro (h | (h | h) | h)
+      · exact Or.inl (Or.inr (Or.inr h))
+      · exact Or.inl (Or.inr (Or.inl h))
+      · exact Or.inl (Or.inl h)
+      · exact Or.inr h
+
+theorem sorted_foldl_atoms (as : List TAtom) : ∀ (ps : List Time), Sorted ps →
+    Sorted (as.foldl (fun ps a => insertPulse a.stop (insertPulse a.start ps)) ps) := by
+  induction as with
+  | nil => simp
+  | cons a r ih => intro ps h; exact ih _ (sorted_insertPulse (sorted_insertPulse h))
+
+theorem mem_pulsesOf {as : List TAtom} {extra : List Time} {p : Time} :
+    p ∈ pulsesOf as extra ↔ (∃ a ∈ as, p = a.start ∨ p = a.stop) ∨ p ∈ extra := by
+  simp [pulsesOf, mem_foldl_insert, mem_foldl_atoms]
+
+theorem sorted_pulsesOf (as : List TAtom) (extra : List Time) : Sorted (pulsesOf as extra) := by
+  unfold pulsesOf
+  exact sorted_foldl_insert _ _ (sorted_foldl_atoms _ _ List.Pairwise.nil)
+
+/-! ### the set update -/
+
+theorem mem_addIds (l : List Nat) : ∀ (cur : List Nat) (i : Nat),
+    i ∈ l.foldl (fun c i => if c.contains i then c else c ++ [i]) cur ↔ i ∈ cur ∨ i ∈ l := by
+  induction l with
+  | nil => simp
+  | cons x r ih =>
+    intro cur i
+    simp only [List.foldl_cons, ih, List.mem_cons]
+    split
+    · rename_i h
+      have hx : x ∈ cur := by simpa using h
+      constructor
+      · tauto
+      · rintro (h | rfl | h) <;> tauto
+    · simp only [List.mem_append, List.mem_singleton]; tauto
+
+theorem nodup_addIds (l : List Nat) : ∀ (cur : List Nat), cur.Nodup →
+    (l.foldl (fun c i => if c.contains i then c else c ++ [i]) cur).Nodup := by
+  induction l with
+  | nil => simp
+  | cons x r ih =>
+    intro cur h
+    simp only [List.foldl_cons]
+    apply ih
+    split
+    · exact h
+    · rename_i hx
+      have hx : x ∉ cur := by simpa using hx
+      rw [List.nodup_append]
+      refine ⟨h, by simp, ?_⟩
+      intro a ha b hb
+      simp only [List.mem_singleton] at hb
+      subst hb; rintro rfl; exact hx ha
+
+theorem mem_stepSet {as : List TAtom} {cur : List Nat} {p : Time} {i : Nat} :
+    i ∈ stepSet as cur p ↔
+      (i ∈ cur ∨ ∃ a ∈ as, a.start = p ∧ a.id = i) ∧ ¬ ∃ a ∈ as, a.id = i ∧ a.stop = p := by
+  unfold stepSet
+  simp only [List.mem_filter, mem_addIds, List.mem_map, Bool.not_eq_true', List.any_eq_false,
+    Bool.and_eq_true, beq_iff_eq, not_and, not_exists]
+  constructor
+  · rintro ⟨h1, h2⟩
+    refine ⟨?_, fun a ha => by simpa using h2 a ha⟩
+    rcases h1 with h1 | ⟨a, ⟨ha, hs⟩, hi⟩
+    · exact Or.inl h1
+    · exact Or.inr ⟨a, ha, hs, hi⟩
+  · rintro ⟨h1, h2⟩
+    refine ⟨?_, fun a ha => by simpa using h2 a ha⟩
+    rcases h1 with h1 | ⟨a, ha, hs, hi⟩
+    · exact Or.inl h1
+    · exact Or.inr ⟨a, ⟨ha, hs⟩, hi⟩
+
+theorem nodup_stepSet {as : List TAtom} {cur : List Nat} {p : Time} (h : cur.Nodup) :
+    (stepSet as cur p).Nodup := by
+  unfold stepSet
+  exact (nodup_addIds _ _ h).filter _
+
+/-! ### `pairsOf` -/
+
+theorem pairsOf_eq_nil_of_length_le_one : ∀ (l : List Nat), ¬ l.length > 1 → pairsOf l = []
+  | [], _ => rfl
+  | [_], _ => rfl
+  | _ :: _ :: _, h => by simp at h
+
+theorem mem_pairsOf_of_mem {i j : Nat} : ∀ (l : List Nat), i ∈ l → j ∈ l → i ≠ j →
+    (i, j) ∈ pairsOf l ∨ (j, i) ∈ pairsOf l := by
+  intro l
+  induction l with
+  | nil => simp
+  | cons x t ih =>
+    intro hi hj hij
+    simp only [pairsOf, List.mem_append, List.mem_map, Prod.mk.injEq]
+    rcases List.mem_cons.1 hi with rfl | hi' <;> rcases List.mem_cons.1 hj with rfl | hj'
+    · exact absurd rfl hij
+    · exact Or.inl (Or.inl ⟨j, hj', rfl, rfl⟩)
+    · exact Or.inr (Or.inl ⟨i, hi', rfl, rfl⟩)
+    · rcases ih hi' hj' hij with h | h
+      · exact Or.inl (Or.inr h)
+      · exact Or.inr (Or.inr h)
+
+theorem of_mem_pairsOf {i j : Nat} : ∀ (l : List Nat), l.Nodup → (i, j) ∈ pairsOf l →
+    i ∈ l ∧ j ∈ l ∧ i ≠ j := by
+  intro l
+  induction l with
+  | nil => simp [pairsOf]
+  | cons x t ih =>
+    intro hnd h
+    have hnd' := List.nodup_cons.1 hnd
+    simp only [pairsOf, List.mem_append, List.mem_map, Prod.mk.injEq] at h
+    rcases h with ⟨b, hb, rfl, rfl⟩ | h
+    · refine ⟨List.mem_cons_self, List.mem_cons_of_mem _ hb, ?_⟩
+      rintro rfl; exact hnd'.1 hb
+    · obtain ⟨h1, h2, h3⟩ := ih hnd'.2 h
+      exact ⟨List.mem_cons_of_mem _ h1, List.mem_cons_of_mem _ h2, h3⟩
+
+/-! ### overlap and covering -/
+
+theorem overlaps_of_covers {a b : TAtom} {t : Time} (ha : covers a t = true) (hb : covers b t = true) :
+    overlaps a b = true := by
+  unfold overlaps
+  split <;> split <;> torder
+
+/-- two overlapping atoms both cover the later of their starts -/
+theorem covers_of_overlaps {a b : TAtom} (h : overlaps a b = true) :
+    ∃ t, (t = a.start ∨ t = b.start) ∧ covers a t = true ∧ covers b t = true := by
+  unfold overlaps at h
+  split at h <;> split at h
+  · exact ⟨b.start, Or.inr rfl, covers_iff.2 ⟨by torder, by torder⟩, covers_iff.2 ⟨by torder, by torder⟩⟩
+  · exact ⟨b.start, Or.inr rfl, covers_iff.2 ⟨by torder, by torder⟩, covers_iff.2 ⟨by torder, by torder⟩⟩
+  · exact ⟨a.start, Or.inl rfl, covers_iff.2 ⟨by torder, by torder⟩, covers_iff.2 ⟨by torder, by torder⟩⟩
+  · exact ⟨a.start, Or.inl rfl, covers_iff.2 ⟨by torder, by torder⟩, covers_iff.2 ⟨by torder, by torder⟩⟩
+
+theorem overlaps_false_of_separate {a b : TAtom} (h : tle a.stop b.start = true ∨ tle b.stop a.start = true) :
+    overlaps a b = false := by
+  unfold overlaps
+  rcases h with h | h <;> split <;> split <;> torder
+
+end Oratio.Sweep
